@@ -1,7 +1,7 @@
-(* props/C04.v -- PROPERTY C04: linear (R^2/R^3) graphs are solved to the global weighted-least-squares optimum (affine edge programs regenerated from the source; Gauss-Newton algebra over lib/GNSpec.v; both joined for whole graphs of the regenerated programs)
+(* props/C04.v -- PROPERTY C04: linear (R^2/R^3) graphs are solved to the global weighted-least-squares optimum (affine edge programs regenerated from the source; Gauss-Newton algebra over lib/GNSpec.v; both joined for whole graphs of the regenerated programs, also for the assembled system)
    Only the statement, closed by [exact]; proofs are in proofs/C04_*.v. *)
 From Coq Require Import Reals List Arith Bool.
-From GS Require Import ExprR LinAlg GraphModel GNSpec LinearSpec C01_Rn C04_affine C04_linear C07_ext C07_whole C07_wholeRn C05_grad C04_whole C04_all.
+From GS Require Import ExprR LinAlg GraphModel GNSpec LinearSpec C01_Rn C04_affine C04_linear C07_ext C07_whole C07_wholeRn C05_grad C04_whole Assembled C04_all.
 Import ListNotations.
 Open Scope R_scope.
 
@@ -39,6 +39,12 @@ Theorem C04 :
      solves (glen vs) (spec_H vs (recsR poses gs)) (spec_b vs (recsR poses gs)) dx ->
      (forall r, (r < glen vs)%nat -> spec_b vs (recsR (move_poses vs poses dx) gs) r = 0) /\
      (forall r c, spec_H vs (recsR (move_poses vs poses dx) gs) r c = spec_H vs (recsR poses gs) r c)) /\
+  (* ... and for the system produced by the ASSEMBLY ALGORITHM of lib/GraphModel.v (through assembly_correct of C03) *)
+  (forall vs poses gs dx,
+     length poses = length vs -> List.Forall (fun v => (0 < v_dim v)%nat) vs -> List.Forall (okgR vs poses) gs ->
+     List.Forall (okgR vs (move_poses vs poses dx)) gs ->
+     solves (glen vs) (assemble_hessian R 0 1 Rplus Rmult vs (recsR poses gs)) (assemble_gradient R 0 Rplus Rmult vs (recsR poses gs)) dx ->
+     forall r, (r < glen vs)%nat -> assemble_gradient R 0 Rplus Rmult vs (recsR (move_poses vs poses dx) gs) r = 0) /\
   (length exR_poses = length exR_vs /\ List.Forall (fun v => (0 < v_dim v)%nat) exR_vs /\ List.Forall (okgR exR_vs exR_poses) exR_gs).
 Proof. exact C04_all. Qed.
 Print Assumptions C04.
